@@ -1017,6 +1017,34 @@ fn link_close(r: &mut Rng, _i: u64) -> Vec<String> {
         l.push("expect-drained".into());
     }
     l.push(format!("release {rn} inf"));
+    if r.chance(1, 2) {
+        // tear the port down half by half in a random order (a closed receiver may be dropped long after
+        // everything else), then check on a second port that the connection is still alive
+        l.push(format!("cancelcalls {rn} p rx"));
+        l.push(format!("cancelcalls {sn} p tx"));
+        l.push("settle".into());
+        let mut halves = vec![(sn, "tx"), (sn, "rx"), (rn, "tx"), (rn, "rx")];
+        if r.chance(1, 2) && !receiver_dropped {
+            l.push(format!("close clz {rn} p"));
+            l.push("settle".into());
+        }
+        while !halves.is_empty() {
+            let i = r.below(halves.len() as u64) as usize;
+            let (x, h) = halves.remove(i);
+            l.push(format!("drop {x} p {h}"));
+            if r.chance(2, 3) {
+                l.push("settle".into());
+            }
+        }
+        l.push("settle".into());
+        l.push(format!("connect cz {sn} q"));
+        l.push(format!("accept az {rn} q"));
+        l.push("settle".into());
+        l.push(format!("send sz {sn} q {}", payload(r, 3)));
+        l.push("settle".into());
+        l.push(format!("recvany rz {rn} q"));
+        l.push("settle".into());
+    }
     l.push("dropall".into());
     l.push("settle".into());
     l.push("end".into());
